@@ -1,6 +1,6 @@
 (* Wire entry points of the C07 model (extend-split strategy). *)
 From Coq Require Import ZArith List Bool QArith Qcanon.
-From SG Require Import Base.Sx Base.QcUtil Model.CombiScheme Model.StdCombi Model.ExtendSplit Model.ESInterp.
+From SG Require Import Base.Sx Base.QcUtil Model.CombiScheme Model.StdCombi Model.ExtendSplit Model.ESInterp Model.ESV3 Model.ESAuto.
 Import ListNotations.
 Open Scope Z_scope.
 
@@ -24,19 +24,33 @@ Definition of_interp (vals : list (point * Qc)) : sx :=
 
 (* fopt = Some f: additionally the values of the combined interpolant (__call__) at the evaluation points, computed on
    the state AFTER the observation pass (the harness calls coarsen_grid for every area first, then the strategy object) *)
+(* results of coarsen_grid for every component grid on an area, all four versions *)
+Definition results4 (st : state) (x : area) : list (lv * Z * (lv * bool)) :=
+  coarsen_results (st_cp st) (a_coarse x) (a_dict x).
+
+(* version 3: the observation / compute traces of the model (which treats every version other than 0,1 as 2) are
+   recomputed with Model/ESV3.v; the boxes and coarsening values are those of the areas of the state *)
+Definition fix_v3 (st : state) (tr : list (box * list (lv * Z * (lv * bool)))) : list (box * list (lv * Z * (lv * bool))) :=
+  if st_version st =? 3 then
+    map (fun r => match find_area (fst r) (st_objs st) with Some x => (fst r, results4 st x) | None => r end) tr
+  else tr.
+
 Definition observe_f (fopt : option (list Qc -> Qc)) (st : state) (pts : list point)
            (compute : list (box * list (lv * Z * (lv * bool)))) (log : list (box * (bool * list nat))) : state * sx :=
-  let '(st', co) := observe_coarsen st in
+  let '(st', co0) := observe_coarsen st in
+  let co := fix_v3 st co0 in
+  let assert_ok := if st_version st =? 3 then forallb (fun g => coarsen_assert3_ok (st_cp st) (fst g)) (the_scheme (st_cp st))
+                   else forallb (fun g => coarsen_assert_ok (st_cp st) (fst g)) (the_scheme (st_cp st)) in
   (st', Lv ([Zv (st_lmax st);
             Lv (mapi (of_leaf (st_single st)) 0 (st_objs st));
             Lv (map (fun g => Lv [of_LZ (fst g); Zv (snd g)]) (the_scheme (st_cp st)));
             Lv (flat_map (fun r => of_results (fst r) (snd r)) co);
             of_assign (assign_points (current_tree st) pts);
             Lv (map (fun b => Lv (of_box b)) (tree_leaves (current_tree st)));
-            Lv (flat_map (fun r => of_results (fst r) (snd r)) compute);
+            Lv (flat_map (fun r => of_results (fst r) (snd r)) (fix_v3 st compute));
             of_log log;
-            sx_bool (forallb (fun g => coarsen_assert_ok (st_cp st) (fst g)) (the_scheme (st_cp st)))]
-            ++ match fopt with None => [] | Some f => [of_interp (es_interpolate st' f pts)] end)).
+            sx_bool assert_ok]
+            ++ match fopt with None => [] | Some f => [of_interp (es_interpolate4 st' f pts)] end)).
 
 Definition observe := observe_f None.
 
@@ -45,6 +59,13 @@ Definition get_box2 (s e : sx) : option box :=
 
 Definition get_dec (x : sx) : option decision :=
   match x with
+  (* with the benefit numbers of automatic_extend_split: the extend/split bit is COMPUTED (Model/ESAuto.v auto_decide), the
+     bit read off the trace is ignored; the model's log then shows the computed decision *)
+  | Lv [s; e; _; dims; be; bs] =>
+    match get_box2 s e, get_Qc be, get_Qc bs, get_LZ dims with
+    | Some b, Some be, Some bs, Some ds => Some (b, (auto_decide be bs, map Z.to_nat ds))
+    | _, _, _, _ => None
+    end
   | Lv [s; e; ext; dims] =>
     match get_box2 s e, get_bool ext, get_LZ dims with
     | Some b, Some ex, Some ds => Some (b, (ex, map Z.to_nat ds))
@@ -130,6 +151,8 @@ Definition get_grids (x : sx) : option (list (lv * Z)) :=
    sub 2: (dim version lmin lmax coarsening variant) -> local_combi, validity, assert
    sub 3: as sub 0 with the test function fun_poly al be: ((cfg) (al be) bens0 pts0 (step ...)); every observation carries
           a 10th component: the values of the combined interpolant at the evaluation points inside the domain
+   sub 5: (dim lmin lmax coarsening) -> version 3: ((levelvec coarse do_compute) ...), valid_local_combi, assert ok
+   sub 6: (dim a b (twin events)) -> split dimensions chosen at every split + final twin-error table (Model/ESAuto.v)
    sub 4: (dim version lmin lmax coarsening variant) -> coarsen_grid for every component grid on a fresh area:
           ((levelvec coarse do_compute) ...), once more with the dictionary left behind, assert ok *)
 Definition entry_C07 (sub : Z) (a : sx) : sx :=
@@ -166,5 +189,28 @@ Definition entry_C07 (sub : Z) (a : sx) : sx :=
                  Lv (map (fun r => Lv [of_LZ (fst (fst r)); of_LZ (fst (snd r)); sx_bool (snd (snd r))]) rs) in
     Lv [enc rs; enc (fst (coarsen_all cp c dict1 (the_scheme cp)));
         sx_bool (forallb (fun g => coarsen_assert_ok cp (fst g)) (the_scheme cp))]
+  | 5, Lv [Zv dim; Zv lmin; Zv lmax; Zv c] =>
+    let cp := mkCP (Z.to_nat dim) 3 lmin lmax 1 in
+    let rs := coarsen_all3 cp c (the_scheme cp) in
+    Lv [Lv (map (fun r => Lv [of_LZ (fst (fst r)); of_LZ (fst (snd r)); sx_bool (snd (snd r))]) rs);
+        sx_bool (valid_local_combi (Z.to_nat dim) (local_combi3 cp c));
+        sx_bool (forallb (fun g => coarsen_assert3_ok cp (fst g)) (the_scheme cp))]
+  | 6, Lv [Zv dim; sa; sb; evs] =>
+    let get_ev := fun x =>
+      match x with
+      | Lv [Zv 0; s; e; Zv d; v] =>
+        match get_box2 s e, get_Qc v with Some b, Some v => Some (TSet b (Z.to_nat d) v) | _, _ => None end
+      | Lv [Zv 1; s; e; ext] =>
+        match get_box2 s e, get_bool ext with Some b, Some ex => Some (TRefine b ex) | _, _ => None end
+      | _ => None
+      end in
+    match get_LQc sa, get_LQc sb, get_list get_ev evs with
+    | Some va, Some vb, Some evs =>
+      let '(es, log) := twin_run (twin_init (Z.to_nat dim) va vb) evs in
+      let of_opt := fun t : option Qc => match t with Some x => Lv [of_Qc x] | None => Lv [] end in
+      Lv [Lv (map (fun r => Lv (of_box (fst r) ++ [of_LZ (map Z.of_nat (snd r))])) log);
+          Lv (map (fun e => Lv (of_box (fst e) ++ [Lv (map of_opt (fst (snd e)))])) es)]
+    | _, _, _ => sx_err 6
+    end
   | _, _ => sx_err 0
   end.
